@@ -1,0 +1,109 @@
+//go:build verif
+
+// Contracts for the storage key derivation and the write locks (db.go),
+// checked by /verif/cmd/vcgo. Comments only; compiled only under the `verif` tag.
+
+package db
+
+//@ pred baseOk(bd) = bd != nil && bd.baseDb != nil
+// data types whose keys are prefixed with the session id
+//@ pred sessioned(pfx) = pfx > 8
+// data types that have per-language entries
+//@ pred translatable(pfx) = bit(pfx, 1) || bit(pfx, 2) || bit(pfx, 3)
+
+//@ func (*DbBase).SetPrefix
+//@   serves C10
+//@   requires baseOk(bd)
+//@   modifies bd.baseDb.pfx
+//@   ensures bd.baseDb.pfx == pfx
+
+//@ func (*DbBase).Prefix
+//@   requires baseOk(bd)
+//@   ensures result == bd.baseDb.pfx
+
+//@ func (*DbBase).SetLanguage
+//@   serves C10
+//@   requires baseOk(bd)
+//@   modifies bd.baseDb.lang
+//@   ensures bd.baseDb.lang == ln
+
+// the session prefix is the id followed by a dot (empty for the empty id)
+//@ func (*DbBase).SetSession
+//@   serves C10, C11
+//@   requires baseOk(bd)
+//@   modifies bd.baseDb.sid
+//@   ensures @empty sessionId == "" ==> len(bd.baseDb.sid) == 0
+//@   ensures @prefix sessionId != "" ==> str(bd.baseDb.sid) == sessionId + "."
+//@   ensures @own fresh(bd.baseDb.sid)
+
+// Locks: sealing is irreversible, a sealed store refuses SetLock and keeps its locks (C10).
+//@ func (*DbBase).SetLock
+//@   serves C10
+//@   requires baseOk(bd)
+//@   modifies bd.baseDb.lock, bd.baseDb.seal
+//@   ensures[C10] @sealed old(bd.baseDb.seal) ==> result != nil && unchanged(bd.baseDb.lock, bd.baseDb.seal)
+//@   ensures[C10] @seal !old(bd.baseDb.seal) && pfx == 0 ==> result == nil && bd.baseDb.seal && forall(n, 0, 8, bit(bd.baseDb.lock, n) == (old(bit(bd.baseDb.lock, n)) || n < 4))
+//@   ensures[C10] @lock !old(bd.baseDb.seal) && pfx != 0 && lock ==> result == nil && !bd.baseDb.seal && forall(n, 0, 8, bit(bd.baseDb.lock, n) == (old(bit(bd.baseDb.lock, n)) || bit(pfx, n)))
+//@   ensures[C10] @unlock !old(bd.baseDb.seal) && pfx != 0 && !lock ==> result == nil && !bd.baseDb.seal && forall(n, 0, 8, bit(bd.baseDb.lock, n) == (old(bit(bd.baseDb.lock, n)) && !bit(pfx, n)))
+//@   ensures[C10] @forever old(bd.baseDb.seal) ==> bd.baseDb.seal
+
+//@ func (*DbBase).CheckPut
+//@   serves C10
+//@   requires baseOk(bd)
+//@   ensures[C10] @check result == forall(n, 0, 8, !(bit(bd.baseDb.pfx, n) && bit(bd.baseDb.lock, n)))
+
+//@ func (*DbBase).Safe
+//@   serves C10
+//@   requires baseOk(bd)
+//@   ensures[C10] @safe result == (bit(bd.baseDb.lock, 0) && bit(bd.baseDb.lock, 1) && bit(bd.baseDb.lock, 2) && bit(bd.baseDb.lock, 3))
+
+// ---- storage keys (C10, C11) ----
+// key(type, session prefix, key, language) as strings; the code is bound to
+// these by the contracts below, the isolation lemmas of C11 talk about them.
+//@ ghost langSuffix(l) = ite(l != nil && l.Code != "", "_" + l.Code, "")
+
+//@ func (*DbBase).ToSessionKey
+//@   serves C10, C11
+//@   requires baseOk(bd)
+//@   premise !sameBacking(key, bd.baseDb.sid)
+//@   modifies bd.baseDb.sid[*]
+//@   ensures @sessioned sessioned(pfx) ==> str(result) == old(str(bd.baseDb.sid)) + old(str(key))
+//@   ensures @sid str(bd.baseDb.sid) == old(str(bd.baseDb.sid)) && str(key) == old(str(key))
+//@   ensures @plain !sessioned(pfx) ==> result == key
+//@   ensures @backing result == nil || sameBacking(result, key) || sameBacking(result, bd.baseDb.sid) || fresh(result)
+
+//@ func ToDbKey
+//@   serves C10, C11
+//@   modifies b[*]
+//@   ensures @plain !(l != nil && l.Code != "" && translatable(typ)) ==> str(result) == chr(typ) + str(b)
+//@   ensures @lang l != nil && l.Code != "" && translatable(typ) ==> str(result) == chr(typ) + old(str(b)) + "_" + l.Code
+//@   ensures @own fresh(result)
+//@   ensures @kept str(b) == old(str(b))
+
+// the session part of a storage key for the current data type
+//@ ghost skey(bd, key) = ite(sessioned(bd.baseDb.pfx), str(bd.baseDb.sid), "") + str(key)
+// the language that applies to a lookup: the one set on the store, else the context's (C18)
+//@ pred ctxHasLang(ctx) = typeis[lang.Language](ctxval(ctx, "Language"))
+//@ ghost ctxLangCode(ctx) = as[lang.Language](ctxval(ctx, "Language")).Code
+
+//@ func (*DbBase).ToKey
+//@   serves C10, C11, C18
+//@   requires baseOk(bd) && ctx != nil
+//@   premise !sameBacking(key, bd.baseDb.sid)
+//@   modifies bd.baseDb.sid[*], key[*]
+//@   ensures @unknown bd.baseDb.pfx == 0 ==> result1 != nil
+//@   ensures @ok bd.baseDb.pfx != 0 ==> result1 == nil
+//@   ensures @default bd.baseDb.pfx != 0 ==> str(result0.Default) == chr(bd.baseDb.pfx) + old(skey(bd, key)) && result0.Default != nil
+//@   ensures @notrans bd.baseDb.pfx != 0 && (!translatable(bd.baseDb.pfx) || (bd.baseDb.lang == nil && !ctxHasLang(ctx))) ==> result0.Translation == nil
+//@   ensures[C10,C18] @dblang bd.baseDb.pfx != 0 && translatable(bd.baseDb.pfx) && bd.baseDb.lang != nil ==> result0.Translation != nil
+//@     && str(result0.Translation) == chr(bd.baseDb.pfx) + old(skey(bd, key)) + langSuffix(bd.baseDb.lang)
+//@   ensures[C10,C18] @ctxlang bd.baseDb.pfx != 0 && translatable(bd.baseDb.pfx) && bd.baseDb.lang == nil && ctxHasLang(ctx) ==> result0.Translation != nil
+//@     && str(result0.Translation) == chr(bd.baseDb.pfx) + old(skey(bd, key)) + ite(ctxLangCode(ctx) != "", "_" + ctxLangCode(ctx), "")
+
+// not-found errors are recognisable (C10); IsNotFound inspects the message text (assumed)
+//@ func NewErrNotFound
+//@   serves C10
+//@   ensures typeis[ErrNotFound](result) && result != nil
+//@ func IsNotFound
+//@   assumed
+//@   ensures typeis[ErrNotFound](err) ==> result
